@@ -402,12 +402,6 @@ theorem unflattenT_content_partial (declared : Bool) (dflt : ν) (r l k : Nat) (
       content dflt (r + 2 + l + k) t' = (content dflt (r + 1 + k) t).map
         (fun pv => (liftN (splitTop (fun c => c.take 1) (fun c => c.drop 1) l) k pv.1, pv.2)) := by
   unfold unflattenTS
-  have hcond : (!declared && (fibersAt r k t).all
-      (fun f => (show List (List α × Tree (List α) ν r) from f).isEmpty)) = false := by
-    cases declared <;> simp at hshape ⊢
-    exact hshape
-  rw [hcond]
-  simp only [Bool.false_eq_true, if_false]
   unfold unflattenT
   cases hg : allEmptyAt dflt r k t with
   | true =>
@@ -479,8 +473,8 @@ theorem flatten_unflatten_roundtrip (mf : List ν → Option ν) (z dflt : ν) (
       | false => rfl
       | true => rw [allEmptyAt_of_all_nil dflt r k u hn] at hg; cases hg
     unfold unflattenTS unflattenT
-    rw [hnil, hg]
-    simp only [Bool.and_false, Bool.false_eq_true, if_false]
+    rw [hg]
+    simp only [Bool.false_eq_true, if_false]
     rw [atDepth_bind _ _ k t u hu]
     exact ht'
   · rw [htc]
